@@ -105,6 +105,60 @@ theorem cycle_through_record_rejected :
 
 
 
+
+/-! #### Acyclicity is not a hypothesis: it follows from consistency (round 4)
+
+    `Agrees` asks, besides consistency with a heap, that no object be unfolded inside itself
+    (`addr ∉ addrsL kids`). That clause is derivable: in a finite term an object unfolded inside its
+    own unfolding would be a proper subterm equal to the whole. So the round trip holds for every
+    *consistent* term — the only remaining side condition is the one about back edges (they target
+    closures being filled), which is exactly what the real deserialiser needs
+    (`cycle_through_record_rejected`). -/
+
+/-- `Consistent` (no acyclicity clause) and `Agrees` describe the same graphs. -/
+theorem consistent_iff_agrees (h : Nat → T) (F : Nat → Prop) (t : T) :
+    Consistent h F t ↔ Agrees h F t :=
+  ⟨Proofs.consistent_agrees h t F, Proofs.agrees_consistent h t F⟩
+
+/-- The round trip with sharing and cycles, from consistency alone. -/
+theorem de_ser_of_consistent (h : Nat → T) (t : T) (hc : Consistent h (fun _ => False) t) :
+    de (ser t) = .ok (relabel (serD [] t).2 t) :=
+  de_ser h t (Proofs.consistent_agrees h t _ hc)
+
+/-- … and the renaming is injective on everything the graph mentions. -/
+theorem de_ser_sharing_of_consistent (h : Nat → T) (t : T)
+    (hc : Consistent h (fun _ => False) t) (a a' : Nat)
+    (ha : a ∈ addrs t ∨ a ∈ ptrs t) (ha' : a' ∈ addrs t ∨ a' ∈ ptrs t)
+    (he : rho (serD [] t).2 a = rho (serD [] t).2 a') : a = a' :=
+  de_ser_sharing h t (Proofs.consistent_agrees h t _ hc) a a' ha ha' he
+
+/-- An object unfolded inside a consistent term is never larger than the term (the size argument
+    behind the derivation). -/
+theorem unfolded_object_not_larger (h : Nat → T) (F : Nat → Prop) (t : T) (a : Nat)
+    (hc : Consistent h F t) (ha : a ∈ addrs t) : size (h a) ≤ size t :=
+  Proofs.size_of_mem h a t F hc ha
+
+
+/-- Loading and serialising again reproduces the stream: the loaded graph gets the same Marked /
+    Plain / Reference skeleton with the same ids (what tests/serialization.rs `roundtrip` and the
+    harness oracle `value-roundtrip:sharing` observe on the real code). -/
+theorem reser_stable (h : Nat → T) (t t' : T) (hc : Consistent h (fun _ => False) t)
+    (hd : de (ser t) = .ok t') : ser t' = ser t := by
+  have hag := Proofs.consistent_agrees h t _ hc
+  obtain ⟨nm', _, hinv, _, hall⟩ :=
+    Proofs.roundtrip h t [] [] (fun _ => False) (fun _ => False) hag (Proofs.inv_empty h)
+      (by intro a _; exact ⟨fun hf => hf, fun hf => hf⟩)
+  rw [de_ser h t hag] at hd
+  cases hd
+  have := (Proofs.reser (serD [] t).2 hinv.inj t [] [] Proofs.Rel.nil (Proofs.Ext.refl _) hall).1
+  simp only [ser, this]
+
+/-- Hence load ∘ save is idempotent on what it produces: a second round trip returns the same
+    graph as the first. -/
+theorem de_ser_idempotent (h : Nat → T) (t t' : T) (hc : Consistent h (fun _ => False) t)
+    (hd : de (ser t) = .ok t') : de (ser t') = .ok t' := by
+  rw [reser_stable h t t' hc hd]; exact hd
+
 /-! #### The text layer under names and string constants -/
 section Text
 open GluonModel.JsonStr
@@ -307,6 +361,16 @@ def exCycleHeap : Nat → T := fun a =>
 
 example : Agrees exCycleHeap (fun _ => False) exCycle := by
   simp [Agrees, AgreesL, exCycle, exArr, exCycleHeap, addrsL, addrs, T.sort]
+example : Consistent exCycleHeap (fun _ => False) exCycle := by
+  simp [Consistent, ConsistentL, exCycle, exArr, exCycleHeap, T.sort]
+example : Consistent exHeap (fun _ => False) exRec := by
+  simp [Consistent, ConsistentL, exRec, exArr, exHeap]
+example : de (ser exCycle) = .ok (relabel (serD [] exCycle).2 exCycle) :=
+  de_ser_of_consistent exCycleHeap exCycle (by
+    simp [Consistent, ConsistentL, exCycle, exArr, exCycleHeap, T.sort])
+example : ser (relabel (serD [] exCycle).2 exCycle) = ser exCycle :=
+  reser_stable exCycleHeap exCycle _ (by
+    simp [Consistent, ConsistentL, exCycle, exArr, exCycleHeap, T.sort]) (by rfl)
 example : ser exCycle =
     [.cmarked 4 0 1 2, .marked 1 1 2, .atom 7, .atom 8, .marked 0 2 3, .atom 1, .ref 4 0, .ref 1 1] := by
   simp [ser, serD, serDs, exCycle, exArr, lookup, flat, flats]
